@@ -55,6 +55,15 @@ CHECKS = {
  "C20": dict(cat="exploration", ref="7 C20", tech="complete dump of every table entry judged by TLC with relational invariants written in TLA+ (Tables.tla); exhaustive over the finite tables",
              text="All 65536 record type codes (name round trip, text marshalling, categorisation in three visiting orders), every errno name and number (inverse maps, alias classes), every architecture (unique names and codes, acceptance and print-back by the rule package), every per-architecture syscall entry (names unique per table), every rule field/operator/comparison through Build -> ToCommandLine, and every entry of normalizations.yaml (record types the parser knows, syscalls present in some table, one normalisation per syscall, at most one unqualified normalisation per record type, file loads) are dumped and judged; the space is finite and enumerated completely.",
              note="Exhaustive over the tables as compiled into the harness plus the YAML file on disk. Trusted: TLC, the harness's independent YAML parse, three visiting orders as the probe for call-order dependence."),
+ "C04": dict(cat="exploration", ref="7 C04", tech="log-line header written as a TLA+ definition (AuditRecord!HeaderLine / RawAfterMsg); all 65536 type codes swept; TLC judges what ParseLogLine, Parse and ToMapStr returned against the parts that were written",
+             text="Every type code is written by the library's name (and as UNKNOWN[n], and by its linux/audit.h name where one is transcribed), with seconds over [0, 2^34) incl. the 2^31/2^32/int64-nanosecond boundaries, all milliseconds 000-999, boundary and random uint32 sequences and hostile bodies (containing msg=, ')', ':', the well-known key names); TLC checks the assembled line equals HeaderLine(parts), both entry points agree, type/seconds/ms/sequence/RawData equal what was written, and ToMapStr reports record_type, @timestamp, sequence, raw_msg from the header. Every truncation up to ')', every separator removal and a non-digit in every numeric position must give an error and no message.",
+             note="Type codes are exhaustive; seconds/sequence/bodies are sampled with boundaries. @timestamp is compared with Go's time formatting of the written instant. Numbers travel as digit strings (TLC integers are 32-bit)."),
+ "C05": dict(cat="exploration", ref="7 C05", tech="TLC enumerates the parser's input grammar (ParseCases.tla: record type x field x value shape, field pairs, sockaddr family x length, SELinux parts, AVC forms, EXECVE shapes, header defects); the harness adds mutated log corpora and random bytes; TLC judges the call machine (returned, repeated calls equal)",
+             text="Each case is instantiated with seeded strings and run through Parse and ParseLogLine under recover with a 20 s watchdog; for every returned message Data, Tags and ToMapStr are called repeatedly in different orders and their JSON digests must agree. Quick: ~70k inputs (12k grammar cases x2, 140 corpus lines x150 mutations, 20k random strings); thorough: millions.",
+             note="Totality is observed, not proved: breadth is the generators'. The grammar is enumerated completely by TLC, strings are sampled. A hang is declared after 20 s on inputs <= 10 KiB."),
+ "C12": dict(cat="exploration", ref="7 C12", tech="kernel encoding of untrusted strings, struct sockaddr and derived-field rules written in TLA+ (AuditRecord.tla); TLC checks both that the harness wrote each value the way the kernel does and that Data() returned the expected value; table sweeps are exhaustive",
+             text="Random values (safe printable, hex-looking, with spaces, arbitrary bytes, quotes/equals/backslashes inside) are encoded by the harness, checked against EncodeUntrusted by TLC, placed in exe/cwd/PATH name/proctitle/USER_CMD cmd/TTY data/acct/EXECVE a0..aN records, and Data() must return the original (NUL->space for proctitle); plain tokens must be unchanged, exactly the four placeholders dropped, result/unset/errno/arch rules hold, IPv4/IPv6/unix socket addresses decode to the bytes written; every errno 1..133 and every (arch, syscall number) of the exported tables is swept.",
+             note="Values respect the property's stated exclusions; values nested inside msg='...' contain no single quote when quoted. Syscall names are compared with the exported table itself (the property's 'published tables'); that the tables are functions is C20."),
 }
 
 NOT_YET = {
